@@ -256,6 +256,22 @@ func failed(res map[string]interface{}, err error) map[string]interface{} {
 	return res
 }
 
+// listed reads the server's graph listing right after this client's own AddGraph/DeleteGraph was acknowledged:
+// only this client creates or deletes the graph, so the listing has to agree with the acknowledged call
+// ("yes"/"no"; "?" when the listing itself failed).
+func (cl *client) listed(ctx context.Context, g string) string {
+	l, err := cl.q.ListGraphs(ctx, &gripql.Empty{})
+	if err != nil {
+		return "?"
+	}
+	for _, n := range l.Graphs {
+		if n == g {
+			return "yes"
+		}
+	}
+	return "no"
+}
+
 // do executes one call of a session through the gRPC clients.
 func (cl *client) do(ctx context.Context, call map[string]interface{}) (res map[string]interface{}) {
 	res = map[string]interface{}{"res": "ok"}
@@ -267,10 +283,12 @@ func (cl *client) do(ctx context.Context, call map[string]interface{}) (res map[
 		if _, err := cl.e.AddGraph(ctx, &gripql.GraphID{Graph: g}); err != nil {
 			return failed(res, err)
 		}
+		res["listed_after"] = cl.listed(ctx, g)
 	case "DeleteGraph":
 		if _, err := cl.e.DeleteGraph(ctx, &gripql.GraphID{Graph: g}); err != nil {
 			return failed(res, err)
 		}
+		res["listed_after"] = cl.listed(ctx, g)
 	case "AddVertex":
 		for _, e := range elems {
 			if _, err := cl.e.AddVertex(ctx, &gripql.GraphElement{Graph: g, Vertex: vertexOf(e.(map[string]interface{}))}); err != nil {
@@ -615,8 +633,56 @@ func (h *Handler) Handle(req map[string]interface{}) interface{} {
 			}
 		}(c, calls)
 	}
+	// environment (not part of the history): other clients that create and delete graphs of their own, whose names no
+	// call of the sessions uses, while the sessions run.  By the isolation of graphs (GraphStore.tla!Isolation) this
+	// changes nothing the sessions can observe - it only makes the server's graph bookkeeping run concurrently.
+	stopChurn := make(chan struct{})
+	var churnWG sync.WaitGroup
+	churned := int64(0)
+	if on, _ := req["churn"].(bool); on {
+		for w := 0; w < 2; w++ {
+			conn, err := n.dial()
+			if err != nil {
+				resp["harness_err"] = err.Error()
+				return resp
+			}
+			ec := gripql.NewEditClient(conn)
+			churnWG.Add(1)
+			go func(w int) {
+				defer churnWG.Done()
+				<-start
+				last := ""
+				for k := 0; ; k++ {
+					select {
+					case <-stopChurn:
+						if last != "" {
+							ec.DeleteGraph(context.Background(), &gripql.GraphID{Graph: last})
+						}
+						return
+					default:
+					}
+					// in bursts: a stale view of the graphs is repaired by the next creation or deletion,
+					// so the environment has to leave the sessions time to look
+					if k%2 == 1 {
+						time.Sleep(time.Duration(1+k%5) * time.Millisecond)
+					}
+					name := fmt.Sprintf("%szq%dn%d", prefix, w, k)
+					if _, err := ec.AddGraph(ctx, &gripql.GraphID{Graph: name}); err == nil {
+						atomic.AddInt64(&churned, 1)
+						if last != "" {
+							ec.DeleteGraph(ctx, &gripql.GraphID{Graph: last})
+						}
+						last = name
+					}
+				}
+			}(w)
+		}
+	}
 	close(start)
 	wg.Wait()
+	close(stopChurn)
+	churnWG.Wait()
+	resp["churned"] = atomic.LoadInt64(&churned)
 
 	out := make([]interface{}, len(sessions))
 	for c := range recs {
